@@ -173,6 +173,38 @@ def check_iterators(chk, m, L, N, I):
     runs = runs_of(m, fn)
     # every way into the search loop / to a return positions the caller's iterator
     entry_runs = [(s, p) for s, p in runs if s == fn.entry.name]
+    uses_iterate = any(e.kind == "call" and e.callee == "list_iterate" for s, p in runs for e in p.events)
+    if not uses_iterate:
+        # the search walks the links itself and fills the caller's iterator when it is done: on every returning segment with a
+        # non-NULL iterator, iter->list = list and iter->prevnext = the link whose content decided the result
+        n_ret = 0
+        for s, p in runs:
+            if p.end != "ret":
+                continue
+            user_iter = is_null_on_path(p, ("arg", 2))
+            if user_iter is True:
+                continue
+            n_ret += 1
+            st = {ptr_parts(e.ptr)[1]: e.val for e in p.events if e.kind == "store" and ptr_parts(e.ptr)[0] == ("arg", 2) and not ptr_parts(e.ptr)[2]}
+            link = st.get(I["prevnext"])
+            lst = st.get(I["list"])
+            decided = False
+            if link is not None:
+                for c, taken, inst in p.conds:
+                    cc = strip_casts(c)
+                    if cc[0] == "icmp" and cc[1] in ("eq", "ne"):
+                        for a, b in ((cc[2], cc[3]), (cc[3], cc[2])):
+                            a = strip_casts(a)
+                            if a[0] == "ld" and a[1] == link and (b == ("null",) or strip_casts(b) == ("arg", 1)):
+                                decided = True
+            ok = lst == ("arg", 0) and link is not None and decided and user_iter is False
+            chk.ob("N5.contains-positions-iterator", "list_contains %s..ret (caller iterator)" % s.lstrip("%"), ok,
+                   "the caller's iterator is left on the link that decided the search (iter->list = list, iter->prevnext = that link)"
+                   if ok else "the caller's iterator is not positioned on the link that decided the search (list %s, prevnext %s, tested %s, "
+                   "iterator tested for NULL %s)" % (fmt(lst) if lst else None, fmt(link)[:40] if link else None, decided, user_iter is False),
+                   p.ret_inst.loc, fn.name)
+        chk.expect("N5", "returning segments of list_contains with a caller iterator", n_ret, 1)
+        entry_runs = []
     for s, p in entry_runs:
         it = [e for e in p.events if e.kind == "call" and e.callee == "list_iterate" and e.args[0] == ("arg", 0)]
         user_iter = is_null_on_path(p, ("arg", 2))
